@@ -393,6 +393,23 @@ func execURL(sim *core.Sim, prop string, p *Plan, out *core.Outcome) {
 			sim.Probe("urls-with-extra-parameters")
 		}
 
+		scribble := func() {
+			if !c.Scribble {
+				return
+			}
+			sim.Probe("parsed-urls-changed-by-the-caller-afterwards")
+			if u.Params != nil {
+				u.Params.Set("host", fmt.Sprintf("scribble%d", i))
+				u.Params.Set("freq", "7103.5")
+				u.Params.Add("scribbled", "1")
+			}
+			for k := range u.Digis {
+				u.Digis[k] = "SCRIB-" + fmt.Sprint(k)
+			}
+			if u.User != nil {
+				u.User = url.UserPassword("scribble", "scribble")
+			}
+		}
 		transport.UnregisterDialer(t.scheme)
 		if !c.Register {
 			conn, derr, pv, stack := dialVia(c.Via, u)
@@ -402,6 +419,7 @@ func execURL(sim *core.Sim, prop string, p *Plan, out *core.Outcome) {
 			} else if dialResult(conn, derr) != resMissing {
 				sim.Violate(prop, "dispatch", "unregistered-scheme-not-reported", "dialling %s with no dialer registered for %q returned (%v, %v), want ErrMissingDialer", q(raw), t.scheme, conn, derr)
 			}
+			scribble()
 			continue
 		}
 		reg, stubKind := newStub(c.Stub, id)
@@ -432,6 +450,7 @@ func execURL(sim *core.Sim, prop string, p *Plan, out *core.Outcome) {
 		}
 		okDialled++
 		sim.Probe("urls-dialled-through-registered-dialer")
+		scribble()
 	}
 	out.NonTrivial = okDialled > 0
 }
